@@ -141,10 +141,17 @@ MonStepCoincide(cx, m00, c, st, delivered, cap, legacy) ==
         ELSE [m |-> MonData(m, c, cap), errs |-> errs, want |-> <<>>]
 
 \* an OVERFLOW status reports the overflow, also when it is given at the very byte that overflows
-MonStep(name, m, c, st, delivered, cap) ==
-   LET r == IF name = "default" THEN MonStepDistinct(Default, m, c, st, delivered, cap)
-            ELSE MonStepCoincide(V0, m, c, st, delivered, cap, name = "legacy")
+\* any context whose escape codes differ from its markers (otherwise "STUB START" would be both an escaped byte and a
+\* broken escape followed by a new frame, and no receiver could satisfy the property)
+ValidCx(cx) == /\ cx.STUB \notin {cx.START, cx.STOP}
+               /\ {cx.SSTART, cx.SSTOP, cx.SSTUB} \cap {cx.START, cx.STOP} = {}
+               /\ cx.SSTUB \notin {cx.SSTART, cx.SSTOP}
+               /\ (cx.SSTART = cx.SSTOP) <=> (cx.START = cx.STOP)
+MonStepCx(cx, legacy, m, c, st, delivered, cap) ==
+   LET r == IF cx.START # cx.STOP THEN MonStepDistinct(cx, m, c, st, delivered, cap)
+            ELSE MonStepCoincide(cx, m, c, st, delivered, cap, legacy)
    IN IF st = OVERFLOW THEN [r EXCEPT !.m.ovf = FALSE] ELSE r
+MonStep(name, m, c, st, delivered, cap) == MonStepCx(CtxOf(name), name = "legacy", m, c, st, delivered, cap)
 
 \* ==================================================================================
 \* Implementation-shaped receivers.  State [state, line, crc]; step returns
@@ -192,6 +199,6 @@ LegacyStep(cx, s0, c, cap) ==
         ELSE IF c = cx.SSTUB THEN ImplPut(s, cx.STUB, cap)
         ELSE [s |-> [s EXCEPT !.state = 0], st |-> -3, out |-> <<>>]
 
-RecvStep(name, s, c, cap) ==
-   IF name = "legacy" THEN LegacyStep(V0, s, c, cap) ELSE ImplStep(CtxOf(name), s, c, cap)
+RecvStepCx(cx, legacy, s, c, cap) == IF legacy THEN LegacyStep(cx, s, c, cap) ELSE ImplStep(cx, s, c, cap)
+RecvStep(name, s, c, cap) == RecvStepCx(CtxOf(name), name = "legacy", s, c, cap)
 =============================================================================
